@@ -75,6 +75,9 @@ impl PropImpl for C13 {
          wrap_and_sort on the parts. Oracle: harness-side reference parser/canonical printer. Non-trivial: the input text differs from its canonical sorted form and has >= 2 entries or an optional part. \
          Distinct by text hash.".into()
     }
+    fn expected_labels(&self) -> Vec<&'static str> {
+        vec!["has:substvar", "has:empty-entry", "has:newline", "has:negated-architecture", "has:multi-term-profile-group", "has:epoch", "input-unsorted"]
+    }
     fn budget(&self, tier: Tier) -> Budget {
         Budget { cases_per_lane: if tier == Tier::Quick { 15000 } else { 60_000 }, tape_max: 500, cpu_s: 10 }
     }
